@@ -188,6 +188,86 @@ def execute(prog, entry, intmode="bv", params=None, setup=None, unwind=64, prune
     return ctx, ex
 
 
+def _frac(t, memo):
+    """Real term with division -> (numerator, denominator) polynomial terms"""
+    k = t.get_id()
+    if k in memo:
+        return memo[k]
+    if z3.is_rational_value(t) or z3.is_const(t):
+        r = (t, None)
+    else:
+        op = t.decl().kind()
+        ch = [_frac(x, memo) for x in t.children()]
+
+        def addsub(sign):
+            n, d = ch[0]
+            for (n2, d2) in ch[1:]:
+                if d is None and d2 is None:
+                    n = n + n2 if sign > 0 else n - n2
+                elif d is not None and d2 is not None and d.eq(d2):
+                    n = n + n2 if sign > 0 else n - n2
+                else:
+                    a = n if d2 is None else n * d2
+                    b = n2 if d is None else n2 * d
+                    n = a + b if sign > 0 else a - b
+                    d = d2 if d is None else (d if d2 is None else d * d2)
+            return (n, d)
+        if op == z3.Z3_OP_ADD:
+            r = addsub(1)
+        elif op == z3.Z3_OP_SUB:
+            r = addsub(-1)
+        elif op == z3.Z3_OP_MUL:
+            n, d = ch[0]
+            for (n2, d2) in ch[1:]:
+                n = n * n2
+                d = d2 if d is None else (d if d2 is None else d * d2)
+            r = (n, d)
+        elif op == z3.Z3_OP_DIV:
+            (n1, d1), (n2, d2) = ch
+            n = n1 if d2 is None else n1 * d2
+            d = n2 if d1 is None else d1 * n2
+            r = (n, d)
+        elif op == z3.Z3_OP_UMINUS:
+            r = (-ch[0][0], ch[0][1])
+        else:
+            raise ValueError("operator %s" % t.decl())
+    memo[k] = r
+    return r
+
+
+def identity_by_normal_form(lhs, rhs, points=None):
+    """(True, None) if lhs - rhs (rational functions) normalises to the zero polynomial in z3's rewriter;
+    (False, assignment) if a concrete point is found where the two sides differ (denominators and facts fine);
+    (None, None) if undecided"""
+    try:
+        memo = {}
+        (n1, d1), (n2, d2) = _frac(lhs, memo), _frac(rhs, memo)
+        a = n1 if d2 is None else n1 * d2
+        b = n2 if d1 is None else n2 * d1
+        e = z3.simplify(a - b, som=True, som_blowup=100000000)
+        if z3.is_rational_value(e) and e.numerator_as_long() == 0:
+            return True, None
+        # non-zero normal form: look for a witness point among the prepared assignments
+        from z3 import z3util
+        need = set(v.get_id() for t in [e] + [d for d in (d1, d2) if d is not None] for v in z3util.get_vars(t))
+        for full in (points or []):
+            asg = [(v, c) for (v, c) in full if v.get_id() in need]
+            if not asg:
+                continue
+            ok = True
+            for d in (d1, d2):
+                if d is not None and not z3.is_false(z3.simplify(z3.substitute(d == 0, *asg))):
+                    ok = False
+            if not ok:
+                continue
+            val = z3.simplify(z3.substitute(e, *asg))
+            if z3.is_rational_value(val) and val.numerator_as_long() != 0:
+                return False, {str(v): str(c) for v, c in asg}
+        return None, None
+    except Exception:
+        return None, None
+
+
 class Discharger:
     """obligation manager: one incremental solver with the run's facts, push/pop per obligation"""
 
@@ -198,6 +278,44 @@ class Discharger:
         self.solver.set("timeout", timeout_ms)
         self.nfacts = 0
         self.log = []
+
+    def witness_points(self):
+        """a few random assignments of all real/int/bool symbols of the run that satisfy the recorded facts"""
+        if getattr(self, "_points", None) is not None:
+            return self._points
+        import random
+        from z3 import z3util
+        vs = {}
+        for n, (t, w_, s_) in self.ctx.vars.items():
+            if is_term_(t):
+                for v in z3util.get_vars(t):
+                    vs[v.get_id()] = v
+        for f in self.ctx.facts:
+            for v in z3util.get_vars(f):
+                vs[v.get_id()] = v
+        vs = list(vs.values())
+        rng = random.Random(11)
+        pts = []
+        for attempt in range(20):
+            asg = []
+            bad = False
+            for v in vs:
+                if z3.is_real(v):
+                    asg.append((v, z3.RealVal(rng.randrange(2, 10 ** 6))))
+                elif z3.is_int(v):
+                    asg.append((v, z3.IntVal(rng.randrange(2, 10 ** 6))))
+                elif z3.is_bool(v):
+                    asg.append((v, z3.BoolVal(rng.random() < 0.5)))
+                else:
+                    bad = True
+            if bad:
+                break
+            if all(z3.is_true(z3.simplify(z3.substitute(f, *asg))) for f in self.ctx.facts):
+                pts.append(asg)
+            if len(pts) >= 3:
+                break
+        self._points = pts
+        return pts
 
     def sync_facts(self):
         fs = self.ctx.facts
@@ -215,6 +333,20 @@ class Discharger:
             if ob.kind == "reach":
                 ob.status = "unsat"
             return ob.status
+        ident = getattr(ob, "ident", None)
+        if ident is not None:
+            res, wit = identity_by_normal_form(ident[0], ident[1], self.witness_points())
+            if res is True:
+                ob.status = "unsat"
+                ob.time = time.time() - t0
+                ob.how = "polynomial normal form (z3 rewriter)"
+                return ob.status
+            if res is False:
+                ob.status = "sat"
+                ob.witness = wit
+                ob.model = None
+                ob.time = time.time() - t0
+                return ob.status
         self.solver.push()
         self.solver.add(b_term(c))
         hint = getattr(self.ctx, "reach_hint", None)
